@@ -2,7 +2,9 @@
 
 stdin : {"cases": [ {"verts": [[x,y,z],..], "faces": [[a,b,c],..], "mode": "circle"|"square"|"custom",
                      "cotan": bool, "cycle": [v,...] (generator's own border cycle, custom mode only),
-                     "poly": [[x,y],..] (custom mode: target polygon, poly[k] is meant for cycle[k]) }, ...]}
+                     "poly": [[x,y],..] (custom mode: target polygon, poly[k] is meant for cycle[k]),
+                     "seq": [{"mode","cotan","pre": null|"cotangent"|"angles"}, ..] (optional: run these embeddings one
+                             after the other on ONE mesh object; obs = {"status":"seq","steps":[obs,..]}) }, ...]}
 stdout: '@@JSON ' + {"obs": [ obs, ... ]}
 
 obs = {"status": "ok" | "rejected" | "error:<text>",
@@ -30,12 +32,13 @@ def build(case):
     return M.mesh.SurfaceMesh(d)
 
 
-def one_run(case, corners):
+def one_run(case, corners, mesh=None):
     import numpy as np
     from mouette.processing.parametrization import TutteEmbedding
     from mouette.processing.border import extract_border_cycle
     out = {}
-    mesh = build(case)
+    if mesh is None:
+        mesh = build(case)
     out["nv"], out["ne"], out["nf"] = len(mesh.vertices), len(mesh.edges), len(mesh.faces)
     kw = {}
     if case["mode"] == "custom":
@@ -73,10 +76,34 @@ def one_run(case, corners):
     return out
 
 
-def run_case(case):
+def run_sequence(case):
+    """ONE mesh object, several embeddings in a row (each step: per-vertex then per-corner storage), optionally with
+    attributes computed persistently on the mesh beforehand.  Every step is reported like a single case."""
+    import mouette as M
     try:
-        a = one_run(case, False)
-        b = one_run(case, True)
+        mesh = build(case)
+    except Exception as ex:
+        return {"status": "seq", "steps": [{"status": "error:driver %s: %s" % (type(ex).__name__, str(ex)[:300])}]}
+    steps = []
+    for st in case["seq"]:
+        view = dict(case, mode=st["mode"], cotan=st["cotan"])
+        try:
+            if st.get("pre") == "cotangent":
+                M.attributes.cotangent(mesh)
+            elif st.get("pre") == "angles":
+                M.attributes.corner_angles(mesh)
+            steps.append(run_case(view, mesh))
+        except Exception as ex:
+            steps.append({"status": "error:driver %s: %s" % (type(ex).__name__, str(ex)[:300])})
+    return {"status": "seq", "steps": steps}
+
+
+def run_case(case, mesh=None):
+    if mesh is None and "seq" in case:
+        return run_sequence(case)
+    try:
+        a = one_run(case, False, mesh)
+        b = one_run(case, True, mesh)
     except Exception as ex:
         return {"status": "error:driver %s: %s" % (type(ex).__name__, str(ex)[:300]), "trace": traceback.format_exc()[-600:]}
     if a["status"] != b["status"]:
